@@ -312,6 +312,10 @@ def split_before_whitespace_decision(ctx, rule):
 
 
 def run(ctx):
+    ctx.rule("R08.7", "feed(): discard_bom drops at most the first character of the stream (no loop); feed answers what run() answered")
+    from . import tokrules as _tr7
+    for _w in ("html", "xml"):
+        ctx.guard("R08.7", "feed/" + _w, lambda _w=_w: _tr7.feed_facts(ctx, "R08.7", _w))
     ctx.rule("R08.6", "= R03.16 / R15.11: with exact_errors on and off, input stream preprocessing does the same thing to every character - the error report is the only difference (an early return for reported characters would skip the pending-CR handling)")
     from . import tokrules as _tr6
     for _w in ("html", "xml"):
